@@ -24,6 +24,7 @@ def shards(tier, seed):
     # auxiliary workload: the repository's own tests with the carry contracts switched on
     if tier == "quick":
         out.append({"name": "repo-tests:local", "part": "repo_tests", "paths": ["tests/test_local_time.py", "tests/test_local_date_time.py", "tests/test_period.py"]})
+        out.append({"name": "cross-calendar", "part": "cross", "n": 120})
     else:
         out += [{"name": f"repo-tests:{p}", "part": "repo_tests", "paths": [p]} for p in
                 ("tests/test_local_time.py", "tests/test_local_date_time.py", "tests/test_period.py", "tests/test_time_adjusters.py", "tests/test_offset_time.py", "tests/test_zoned_date_time.py",
@@ -309,12 +310,46 @@ def run_ldt(ctx, cid):
     ctx.sample({"kind": "ldt_plus", "cal": cid, "d": days[-1], "t": times[4], "unit": "hours", "n": 1})
 
 
+def run_cross(ctx, n):
+    """The same physical day and time and the same amount put to several calendars one after the other: each result is that calendar's own
+    rendering of (day + carry, time) - whatever another calendar was asked just before."""
+    from pyoda_time import LocalTime, Period
+    from vf import gen
+    rng = ctx.rng
+    cals = gen.calendars()
+    for _ in range(n):
+        d = rng.randint(-200000, 900000); t = rng.choice([0, DAY - 1, 23 * 3600 * 10**9, rng.randrange(DAY)])
+        from pyoda_time import LocalDateTime as _LDT
+        name = rng.choice([k for k in UNITS if hasattr(_LDT, "plus_" + k)]); u = UNITS[name]
+        amt = rng.choice([1, -1, 2 * DAY // u + 1, -(DAY // u) - 1, 25 * 3600 * 10**9 // u, rng.randint(-5 * DAY // u - 1, 5 * DAY // u + 1)])
+        total = d * DAY + t + amt * u; ed, et = divmod(total, DAY)
+        order = rng.sample(cals, min(len(cals), 7))
+        for rounds in range(2):
+            for cal in order:
+                lo, hi = gen.cal_range(cal.id)
+                if not (lo + 10 < d < hi - 10 and lo + 10 < ed < hi - 10): continue
+                x = gen.date_of(d, cal).at(LocalTime.from_nanoseconds_since_midnight(t))
+                for nm, fn in ((f"plus_{name}", lambda: getattr(x, "plus_" + name)(amt)), ("+Period", lambda: x + getattr(Period, "from_" + name)(amt))):
+                    if nm == "+Period" and not hasattr(Period, "from_" + name): continue
+                    ctx.ev(); ctx.count("ldt_plus"); ctx.key(("cross", cal.id, name))
+                    try:
+                        r = fn()
+                    except Exception as e:  # noqa: BLE001
+                        ctx.exc(e); ctx.V(f"C10:cross-calendar-raised:{type(e).__name__}", f"{cal.id} day {d} t {t} {nm}({amt}) raised {e!r}", {"kind": "cross", "cal": cal.id, "d": d, "t": t, "unit": name, "n": amt}, repr(e)); continue
+                    if r.calendar is not cal or gen.day_of(r.date) != ed or r.nanosecond_of_day != et or gen.ymd(r.date) != gen.ymd(gen.date_of(ed, cal)):
+                        ctx.V("C10:cross-calendar", f"{cal.id} day {d} ns {t} {nm}({amt}) = {r!r} (calendar {r.calendar.id}, day {gen.day_of(r.date)}, ns {r.nanosecond_of_day}) right after other calendars were asked the same; expected day {ed} ns {et} in {cal.id}",
+                              {"kind": "cross", "cal": cal.id, "d": d, "t": t, "unit": name, "n": amt}, (r.calendar.id, gen.day_of(r.date)), (cal.id, ed))
+    ctx.sample({"kind": "cross", "n": n})
+
+
 def run(ctx, shard):
     install_contracts(ctx)
     if shard["part"] == "repo_tests":
         from vf.repo_tests import run_repo_tests
         run_repo_tests(ctx, shard["paths"])
         return
+    if shard["part"] == "cross":
+        run_cross(ctx, shard["n"]); return
     if shard["part"] == "lt":
         run_lt(ctx)
     else:
